@@ -415,7 +415,7 @@ impl<'a, 'tcx> Cx<'a, 'tcx> {
 				if let Some(p) = u.promoted {
 					o.put("promoted", J::Int(p.as_usize() as i128));
 				}
-				if u.args.has_non_region_param() || ty.has_non_region_param() {
+				if ty.has_non_region_param() {
 					None
 				} else {
 					tcx.const_eval_resolve(self.tenv, u, c.span).ok()
@@ -654,6 +654,38 @@ pub fn value_j<'tcx>(tcx: TyCtxt<'tcx>, v: ConstValue, ty: Ty<'tcx>, o: &mut J) 
 					ty::Str => true,
 					_ => false,
 				};
+				let is_enum_or_int = match inner.kind() {
+					ty::Adt(adt, _) => adt.is_enum(),
+					ty::Int(_) | ty::Uint(_) | ty::Bool | ty::Char => true,
+					_ => false,
+				};
+				if is_enum_or_int {
+					let (prov, off) = ptr.into_raw_parts();
+					if let Some(rustc_middle::mir::interpret::GlobalAlloc::Memory(alloc)) =
+						tcx.try_get_global_alloc(prov.alloc_id())
+					{
+						let a = alloc.inner();
+						let start = off.bytes_usize();
+						if start < a.len() && a.len() - start <= 16 && a.provenance().ptrs().is_empty() {
+							let bytes = a.inspect_with_uninit_and_ptr_outside_interpreter(start..a.len());
+							let mut v: u128 = 0;
+							for (i, b) in bytes.iter().enumerate() {
+								v |= (*b as u128) << (8 * i);
+							}
+							o.put("ref_v", J::Int(v as i128));
+							if let ty::Adt(adt, _) = inner.kind() {
+								let bits = bytes.len() * 8;
+								let mask = if bits >= 128 { u128::MAX } else { (1u128 << bits) - 1 };
+								for (vidx, d) in adt.discriminants(tcx) {
+									if d.val & mask == v {
+										o.put("ref_variant", J::s(adt.variant(vidx).name.to_string()));
+										break;
+									}
+								}
+							}
+						}
+					}
+				}
 				if is_bytes {
 					let (prov, off) = ptr.into_raw_parts();
 					if let Some(rustc_middle::mir::interpret::GlobalAlloc::Memory(alloc)) =
